@@ -110,6 +110,8 @@ struct Agg {
     other_props: BTreeMap<&'static str, u64>,
     other_props_listed: BTreeMap<&'static str, u64>,
     samples: Vec<serde_json::Value>,
+    /// coverage feature -> (scenarios showing it, lowest scenario index showing it)
+    features: BTreeMap<u64, (u64, u64)>,
     determinism_checked: u64,
     determinism_mismatch: u64,
 }
@@ -186,6 +188,7 @@ fn run_batch(prop: &str, thorough: bool, base_seed: u64, count: u64, wall_cap_s:
                             hits: Vec::new(),
                             other_props: BTreeMap::new(),
                             other_props_listed: BTreeMap::new(),
+                            features: BTreeMap::new(),
                             samples: Vec::new(),
                             determinism_checked: 0,
                             determinism_mismatch: 0,
@@ -226,6 +229,11 @@ fn run_batch(prop: &str, thorough: bool, base_seed: u64, count: u64, wall_cap_s:
                                     *a.other_props.entry(vi.prop).or_insert(0) += 1;
                                 }
                             }
+                            for f in rep.features.iter() {
+                                let e = a.features.entry(*f).or_insert((0, i));
+                                e.0 += 1;
+                                e.1 = e.1.min(i);
+                            }
                             merge_report(&mut a, rep);
                         }
                         a
@@ -252,6 +260,11 @@ fn run_batch(prop: &str, thorough: bool, base_seed: u64, count: u64, wall_cap_s:
             *total.other_props_listed.entry(k).or_insert(0) += n;
         }
         total.samples.extend(a.samples);
+        for (f, (n, i)) in a.features {
+            let e = total.features.entry(f).or_insert((0, i));
+            e.0 += n;
+            e.1 = e.1.min(i);
+        }
         total.determinism_checked += a.determinism_checked;
         total.determinism_mismatch += a.determinism_mismatch;
         add_report(&mut total.rep, a.rep);
@@ -453,6 +466,9 @@ fn write_evidence(
             "evaluations_per_hour": per_hour(agg.rep.evaluations),
             "seeds_per_hour": per_hour(agg.scenarios),
             "distinct_interleavings": agg.inter.len(),
+            "distinct_state_contexts": agg.features.len(),
+            "state_contexts_seen_in_at_most_3_scenarios": agg.features.values().filter(|(n, _)| *n <= 3).count(),
+            "state_context_rule": "one context = the joint engine state (kind, state, validation status of both jobs, required/invalidated flags) along one dependency edge, or along a path of two edges, observed after some engine call",
             "distinct_shapes": agg.shapes.len(),
             "faults_fired": agg.rep.faults,
             "probes": agg.rep.probes,
